@@ -44,7 +44,7 @@ FLOORS = {'*': {
     'refused:PO': 50, 'refused:PK': 500, 'refused:KO': 100, 'refused:VA': 20, 'refused:VK': 20,
     'mode:none': 100, 'mode:name': 100, 'mode:positional': 50, 'mode:view': 100, 'mode:view-classmethod': 100,
     'mode:view-staticmethod': 100, 'annotations-for-the-type-checker-only': 300, 'parameter-names-the-library-uses-itself': 300,
-    'style:async-wrapped': 100, 'validator:pydantic': 100,
+    'style:async-wrapped': 100, 'validator:pydantic': 100, 'validator:base-with-exclude_param': 300,
     'style:def': 300, 'style:async': 300, 'style:async-plain': 300, 'client-names-context': 100,
     'context-identity-checked': 500, 'dual-registration-calls': 500,
 }}
@@ -227,6 +227,14 @@ def run_program(ctx, sig, ctx_at, mode, style, annot=False, names=0, validator=N
             from pjrpc.server.validators import pydantic as vpd
             ctx.hit('validator:pydantic')
             vpd.PydanticValidator().validate(ns['f'])
+        elif validator == 'predicate':
+            # a validator built with the exclude_param option (dependency injection) whose predicate excludes nothing here: the
+            # context parameter the dispatcher names is excluded all the same
+            from pjrpc.server.validators import base as vbase
+            ctx.hit('validator:base-with-exclude_param')
+            target = ns['f'] if not mode.startswith('view') else ns['View'].__dict__['f']
+            target = getattr(target, '__func__', target)
+            vbase.BaseValidator(exclude_param=lambda name, annotation, default: name == 'never-a-parameter').validate(target)
     except SyntaxError as e:
         raise RuntimeError(f'generator produced invalid Python: {e}\n{sig} {ctx_at} {mode} {style}')
     is_async = style in ('async', 'async-plain', 'async-wrapped')
@@ -418,6 +426,9 @@ def gen(ctx):
                 if names == 2 and mode.startswith('view'):
                     names = 1
                 yield 'program', {'sig': sig, 'ctx_at': at, 'mode': mode, 'style': style, 'annot': k % 5 == 0, 'names': names}
+                if k % 4 == 1 and style != 'async-wrapped':
+                    yield 'program', {'sig': sig, 'ctx_at': at, 'mode': mode, 'style': style, 'annot': False, 'names': names,
+                                      'validator': 'predicate'}
                 if (k % 2 == 0 and not mode.startswith('view') and style != 'async-wrapped' and all(p[0] in ('PK', 'KO') for p in sig)
                         and any(p[1] for p in sig)):
                     # the same program under the pydantic validator (kinds the known findings D4 / D18 do not involve)
